@@ -92,28 +92,39 @@ theorem Keeps.of_superset {s s' : St} (o : Out)
 
 theorem preadsInsert_keeps (pr : List (Nat × Nat × List Nat)) (ri dl : Nat) (ids : List Nat) :
     ∀ e ∈ pr, ∀ id ∈ e.2.2, ∃ e' ∈ preadsInsert pr ri dl ids, id ∈ e'.2.2 := by
-  intro e he id hid
-  unfold preadsInsert
-  split
-  · by_cases hk : e.1 = ri
-    · exact ⟨(e.1, e.2.1, e.2.2 ++ ids), List.mem_map.mpr ⟨e, he, by simp [hk]⟩, List.mem_append_left _ hid⟩
-    · exact ⟨e, List.mem_map.mpr ⟨e, he, by simp [hk]⟩, hid⟩
-  · rcases Nat.lt_trichotomy e.1 ri with h | h | h
-    · exact ⟨e, by simp [List.mem_filter]; exact Or.inl ⟨he, h⟩, hid⟩
-    · rename_i hany
-      exact absurd (List.any_eq_true.mpr ⟨e, he, by simp [h]⟩) hany
-    · exact ⟨e, by simp [List.mem_filter]; exact Or.inr (Or.inr ⟨he, h⟩), hid⟩
+  induction pr with
+  | nil => intro e he; simp at he
+  | cons x rest ih =>
+    intro e he id hid
+    unfold preadsInsert
+    rcases List.mem_cons.mp he with h | h
+    · subst h
+      split
+      · exact ⟨_, List.mem_cons_self, List.mem_append_left _ hid⟩
+      · split
+        · exact ⟨e, by simp, hid⟩
+        · exact ⟨e, List.mem_cons_self, hid⟩
+    · split
+      · exact ⟨e, List.mem_cons_of_mem _ h, hid⟩
+      · split
+        · exact ⟨e, by simp [h], hid⟩
+        · rcases ih e h id hid with ⟨e', he', hin⟩
+          exact ⟨e', List.mem_cons_of_mem _ he', hin⟩
 
 theorem preadsInsert_new (pr : List (Nat × Nat × List Nat)) (ri dl : Nat) (ids : List Nat) :
-    ∀ id ∈ ids, ∃ e' ∈ preadsInsert pr ri dl ids, id ∈ e'.2.2 := by
-  intro id hid
-  unfold preadsInsert
-  split
-  · rename_i h
-    rcases List.any_eq_true.mp h with ⟨e, he, hk⟩
-    simp only [beq_iff_eq] at hk
-    exact ⟨(e.1, e.2.1, e.2.2 ++ ids), List.mem_map.mpr ⟨e, he, by simp [hk]⟩, List.mem_append_right _ hid⟩
-  · exact ⟨(ri, dl, ids), by simp, hid⟩
+    ∀ id ∈ ids, ∃ e' ∈ preadsInsert pr ri dl ids, e'.1 = ri ∧ id ∈ e'.2.2 := by
+  induction pr with
+  | nil => intro id hid; exact ⟨(ri, dl, ids), by simp [preadsInsert], rfl, hid⟩
+  | cons x rest ih =>
+    intro id hid
+    unfold preadsInsert
+    split
+    · rename_i hk
+      exact ⟨_, List.mem_cons_self, by simpa using hk, List.mem_append_right _ hid⟩
+    · split
+      · exact ⟨(ri, dl, ids), List.mem_cons_self, rfl, hid⟩
+      · rcases ih id hid with ⟨e', he', hk, hin⟩
+        exact ⟨e', List.mem_cons_of_mem _ he', hk, hin⟩
 
 theorem routeReads_fst (c : Cfg) (s : St) (r : Option (List Nat)) :
     (routeReads c s r).1 = { s with preads := (routeReads c s r).1.preads } := by
@@ -220,7 +231,8 @@ theorem execRpc_keeps (c : Cfg) (s : St) (ents : List EntKind) (wm : Option WMet
         rw [q8, hg]
         unfold routeReads
         simp only [hserve, Bool.false_eq_true, ↓reduceIte]
-        exact preadsInsert_new _ _ _ _ id hin
+        rcases preadsInsert_new _ _ _ _ id hin with ⟨e', he', _, hin'⟩
+        exact ⟨e', he', hin'⟩
 
 /-- `Keeps` with ids in transit (taken out of a queue and handed to the next function as an argument) -/
 def KeepsX (extra : List Nat) (s s' : St) (o : Out) : Prop :=
